@@ -345,6 +345,22 @@ def run(tier):
                             break
                     distinct.add((cfg, "transfer", c))
                     classes["transfer-measured"] = classes.get("transfer-measured", 0) + 1
+            # tsize of names that are symbolic links (tftpboot layouts: boot.img -> real file): the size of what is transferred
+            for lname, target in (("link_rel.img", "f20000.bin"), ("link_abs.img", os.path.join(sb["srv"], "f4096.bin")), ("link_chain.img", "link_rel.img")):
+                lp = os.path.join(sb["srv"], lname)
+                if not os.path.lexists(lp):
+                    os.symlink(target, lp)
+                true_len = os.path.getsize(lp)
+                evaluations += 1
+                tr = N.download(srv.addr, lname, [("tsize", 0), ("blksize", 1024)], family=srv.family)
+                replay = {"engine": "net", "config": cfg, "symlink": [lname, target], "oack": tr.oack, "completed": tr.completed, "bytes": len(tr.data)}
+                if tr.oack is None or not tr.completed:
+                    v.note_inconclusive(f"{cfg}: download of symlinked {lname} did not complete ({tr.first and tr.first[0]}, {tr.note}, {tr.error})")
+                elif tr.oack.get("tsize") != str(true_len) or len(tr.data) != true_len:
+                    v.violation("C09/tsize/symlink", f"{cfg}: RRQ {lname} -> {target}: OACK tsize={tr.oack.get('tsize')}, transferred {len(tr.data)} bytes, true size {true_len}", replay)
+                else:
+                    distinct.add((cfg, "symlink", lname))
+                    classes["tsize-of-symlinked-file"] = classes.get("tsize-of-symlinked-file", 0) + 1
             # a request that repeats an option with different values: the transfer must be consistent with one reading of
             # the OACK (last occurrence, else first occurrence)
             write(os.path.join(sb["srv"], "rep.bin"), N.keyed_content("rep.bin", 6000))
